@@ -137,9 +137,9 @@ func cmdHarness(args []string) int {
 }
 
 func printResult(res *HarnessResult) {
-	fmt.Printf("== %s: paths=%d statuses=%v asserts=%d (trivial %d, discharged %d, unknown %d) violations=%d queries=%d (sat %d unsat %d unknown %d) solver=%.2fs wall=%.2fs steps=%d\n",
+	fmt.Printf("== %s: paths=%d statuses=%v asserts=%d (trivial %d, discharged %d, unknown %d) violations=%d queries=%d (sat %d unsat %d unknown %d) solver=%.2fs wall=%.2fs steps=%d maxpathsteps=%d\n",
 		res.Harness, res.Paths, res.Statuses, res.Asserts, res.Trivial, res.Discharged, res.Unknown, len(res.Violations),
-		res.Queries, res.NSat, res.NUnsat, res.NUnknown, res.SolveTime.Seconds(), res.Wall.Seconds(), res.Steps)
+		res.Queries, res.NSat, res.NUnsat, res.NUnknown, res.SolveTime.Seconds(), res.Wall.Seconds(), res.Steps, res.MaxStepsPath)
 	if len(res.Reached) > 0 {
 		var ks []string
 		for k, n := range res.Reached {
